@@ -30,7 +30,9 @@ Record proc := {
   mod_rng : rng;                 (* the module-level generator of `random` *)
   inst_rng : rng;                (* a random.Random instance of the module under test (tracked) *)
   pyn_rng : rng;                 (* pynguin.utils.randomness.RNG *)
-  counter : Z                    (* a global of the module under test (hidden state) *)
+  counter : Z;                   (* a global of the module under test (hidden state) *)
+  log_cache : option bool        (* Logger._cache[ERROR] of the module's logger: the cached answer of
+                                    isEnabledFor(ERROR), None = not cached *)
 }.
 
 Record env := { cfg_seed : Z; table : list (Z * list bool) }.
@@ -52,44 +54,23 @@ Inductive act :=
   | SetOut
   | ReadIn
   | OsClose (fd : nat) | OsFstat (fd : nat)
-  | LogDisable (l : Z) | LogCheck
+  | LogDisable (l : Z) | LogCheck | LogEmit
   | Seed (x : Z) | SeedNone | Draw | DrawInst
   | Raise
   | Bump | ReadCounter.
 
-Definition set_out v s := {| s_out := v; s_err := s_err s; s_in := s_in s; nullw_closed := nullw_closed s;
-  nullr_closed := nullr_closed s; fd0 := fd0 s; fd1 := fd1 s; fd2 := fd2 s; logd := logd s;
-  mod_rng := mod_rng s; inst_rng := inst_rng s; pyn_rng := pyn_rng s; counter := counter s |}.
-Definition set_err v s := {| s_out := s_out s; s_err := v; s_in := s_in s; nullw_closed := nullw_closed s;
-  nullr_closed := nullr_closed s; fd0 := fd0 s; fd1 := fd1 s; fd2 := fd2 s; logd := logd s;
-  mod_rng := mod_rng s; inst_rng := inst_rng s; pyn_rng := pyn_rng s; counter := counter s |}.
-Definition set_in v s := {| s_out := s_out s; s_err := s_err s; s_in := v; nullw_closed := nullw_closed s;
-  nullr_closed := nullr_closed s; fd0 := fd0 s; fd1 := fd1 s; fd2 := fd2 s; logd := logd s;
-  mod_rng := mod_rng s; inst_rng := inst_rng s; pyn_rng := pyn_rng s; counter := counter s |}.
-Definition set_nullw v s := {| s_out := s_out s; s_err := s_err s; s_in := s_in s; nullw_closed := v;
-  nullr_closed := nullr_closed s; fd0 := fd0 s; fd1 := fd1 s; fd2 := fd2 s; logd := logd s;
-  mod_rng := mod_rng s; inst_rng := inst_rng s; pyn_rng := pyn_rng s; counter := counter s |}.
-Definition set_nullr v s := {| s_out := s_out s; s_err := s_err s; s_in := s_in s; nullw_closed := nullw_closed s;
-  nullr_closed := v; fd0 := fd0 s; fd1 := fd1 s; fd2 := fd2 s; logd := logd s;
-  mod_rng := mod_rng s; inst_rng := inst_rng s; pyn_rng := pyn_rng s; counter := counter s |}.
-Definition set_fds a b c s := {| s_out := s_out s; s_err := s_err s; s_in := s_in s; nullw_closed := nullw_closed s;
-  nullr_closed := nullr_closed s; fd0 := a; fd1 := b; fd2 := c; logd := logd s;
-  mod_rng := mod_rng s; inst_rng := inst_rng s; pyn_rng := pyn_rng s; counter := counter s |}.
-Definition set_logd v s := {| s_out := s_out s; s_err := s_err s; s_in := s_in s; nullw_closed := nullw_closed s;
-  nullr_closed := nullr_closed s; fd0 := fd0 s; fd1 := fd1 s; fd2 := fd2 s; logd := v;
-  mod_rng := mod_rng s; inst_rng := inst_rng s; pyn_rng := pyn_rng s; counter := counter s |}.
-Definition set_mod v s := {| s_out := s_out s; s_err := s_err s; s_in := s_in s; nullw_closed := nullw_closed s;
-  nullr_closed := nullr_closed s; fd0 := fd0 s; fd1 := fd1 s; fd2 := fd2 s; logd := logd s;
-  mod_rng := v; inst_rng := inst_rng s; pyn_rng := pyn_rng s; counter := counter s |}.
-Definition set_inst v s := {| s_out := s_out s; s_err := s_err s; s_in := s_in s; nullw_closed := nullw_closed s;
-  nullr_closed := nullr_closed s; fd0 := fd0 s; fd1 := fd1 s; fd2 := fd2 s; logd := logd s;
-  mod_rng := mod_rng s; inst_rng := v; pyn_rng := pyn_rng s; counter := counter s |}.
-Definition set_pyn v s := {| s_out := s_out s; s_err := s_err s; s_in := s_in s; nullw_closed := nullw_closed s;
-  nullr_closed := nullr_closed s; fd0 := fd0 s; fd1 := fd1 s; fd2 := fd2 s; logd := logd s;
-  mod_rng := mod_rng s; inst_rng := inst_rng s; pyn_rng := v; counter := counter s |}.
-Definition set_counter v s := {| s_out := s_out s; s_err := s_err s; s_in := s_in s; nullw_closed := nullw_closed s;
-  nullr_closed := nullr_closed s; fd0 := fd0 s; fd1 := fd1 s; fd2 := fd2 s; logd := logd s;
-  mod_rng := mod_rng s; inst_rng := inst_rng s; pyn_rng := pyn_rng s; counter := v |}.
+Definition set_out v s := {| s_out := v; s_err := s_err s; s_in := s_in s; nullw_closed := nullw_closed s; nullr_closed := nullr_closed s; fd0 := fd0 s; fd1 := fd1 s; fd2 := fd2 s; logd := logd s; mod_rng := mod_rng s; inst_rng := inst_rng s; pyn_rng := pyn_rng s; counter := counter s; log_cache := log_cache s |}.
+Definition set_err v s := {| s_out := s_out s; s_err := v; s_in := s_in s; nullw_closed := nullw_closed s; nullr_closed := nullr_closed s; fd0 := fd0 s; fd1 := fd1 s; fd2 := fd2 s; logd := logd s; mod_rng := mod_rng s; inst_rng := inst_rng s; pyn_rng := pyn_rng s; counter := counter s; log_cache := log_cache s |}.
+Definition set_in v s := {| s_out := s_out s; s_err := s_err s; s_in := v; nullw_closed := nullw_closed s; nullr_closed := nullr_closed s; fd0 := fd0 s; fd1 := fd1 s; fd2 := fd2 s; logd := logd s; mod_rng := mod_rng s; inst_rng := inst_rng s; pyn_rng := pyn_rng s; counter := counter s; log_cache := log_cache s |}.
+Definition set_nullw v s := {| s_out := s_out s; s_err := s_err s; s_in := s_in s; nullw_closed := v; nullr_closed := nullr_closed s; fd0 := fd0 s; fd1 := fd1 s; fd2 := fd2 s; logd := logd s; mod_rng := mod_rng s; inst_rng := inst_rng s; pyn_rng := pyn_rng s; counter := counter s; log_cache := log_cache s |}.
+Definition set_nullr v s := {| s_out := s_out s; s_err := s_err s; s_in := s_in s; nullw_closed := nullw_closed s; nullr_closed := v; fd0 := fd0 s; fd1 := fd1 s; fd2 := fd2 s; logd := logd s; mod_rng := mod_rng s; inst_rng := inst_rng s; pyn_rng := pyn_rng s; counter := counter s; log_cache := log_cache s |}.
+Definition set_fds a b c s := {| s_out := s_out s; s_err := s_err s; s_in := s_in s; nullw_closed := nullw_closed s; nullr_closed := nullr_closed s; fd0 := a; fd1 := b; fd2 := c; logd := logd s; mod_rng := mod_rng s; inst_rng := inst_rng s; pyn_rng := pyn_rng s; counter := counter s; log_cache := log_cache s |}.
+Definition set_logd v s := {| s_out := s_out s; s_err := s_err s; s_in := s_in s; nullw_closed := nullw_closed s; nullr_closed := nullr_closed s; fd0 := fd0 s; fd1 := fd1 s; fd2 := fd2 s; logd := v; mod_rng := mod_rng s; inst_rng := inst_rng s; pyn_rng := pyn_rng s; counter := counter s; log_cache := log_cache s |}.
+Definition set_mod v s := {| s_out := s_out s; s_err := s_err s; s_in := s_in s; nullw_closed := nullw_closed s; nullr_closed := nullr_closed s; fd0 := fd0 s; fd1 := fd1 s; fd2 := fd2 s; logd := logd s; mod_rng := v; inst_rng := inst_rng s; pyn_rng := pyn_rng s; counter := counter s; log_cache := log_cache s |}.
+Definition set_inst v s := {| s_out := s_out s; s_err := s_err s; s_in := s_in s; nullw_closed := nullw_closed s; nullr_closed := nullr_closed s; fd0 := fd0 s; fd1 := fd1 s; fd2 := fd2 s; logd := logd s; mod_rng := mod_rng s; inst_rng := v; pyn_rng := pyn_rng s; counter := counter s; log_cache := log_cache s |}.
+Definition set_pyn v s := {| s_out := s_out s; s_err := s_err s; s_in := s_in s; nullw_closed := nullw_closed s; nullr_closed := nullr_closed s; fd0 := fd0 s; fd1 := fd1 s; fd2 := fd2 s; logd := logd s; mod_rng := mod_rng s; inst_rng := inst_rng s; pyn_rng := v; counter := counter s; log_cache := log_cache s |}.
+Definition set_counter v s := {| s_out := s_out s; s_err := s_err s; s_in := s_in s; nullw_closed := nullw_closed s; nullr_closed := nullr_closed s; fd0 := fd0 s; fd1 := fd1 s; fd2 := fd2 s; logd := logd s; mod_rng := mod_rng s; inst_rng := inst_rng s; pyn_rng := pyn_rng s; counter := v; log_cache := log_cache s |}.
+Definition set_cache v s := {| s_out := s_out s; s_err := s_err s; s_in := s_in s; nullw_closed := nullw_closed s; nullr_closed := nullr_closed s; fd0 := fd0 s; fd1 := fd1 s; fd2 := fd2 s; logd := logd s; mod_rng := mod_rng s; inst_rng := inst_rng s; pyn_rng := pyn_rng s; counter := counter s; log_cache := v |}.
 
 (* writing to / reading from the object a stream variable refers to *)
 Definition use_w (r : sref) (s : proc) : outcome :=
@@ -128,6 +109,20 @@ Definition fd_set (i : nat) (v : bool) (s : proc) : proc :=
   | _ => set_fds (fd0 s) (fd1 s) v s
   end.
 
+(* Logger.isEnabledFor(ERROR) of the module's logger (level INFO): the cached answer if there is one,
+   otherwise computed from the disable level and cached.  logging.disable(...) clears the caches of all
+   loggers; assigning logging.root.manager.disable does not. *)
+Definition loud (l : Z) : bool := negb (40 <=? l).
+Definition consult (s : proc) : proc * bool :=
+  match log_cache s with
+  | Some b => (s, b)
+  | None => (set_cache (Some (loud (logd s))) s, loud (logd s))
+  end.
+Definition log_loud (s : proc) : bool := snd (consult s).
+(* caches filled through the public API always agree with the disable level *)
+Definition cache_ok (s : proc) : Prop :=
+  match log_cache s with Some b => b = loud (logd s) | None => True end.
+
 Definition act_step (e : env) (a : act) (s : proc) : proc * outcome :=
   match a with
   | Print => (s, use_w (s_out s) s)
@@ -139,8 +134,9 @@ Definition act_step (e : env) (a : act) (s : proc) : proc * outcome :=
   | ReadIn => (s, use_r (s_in s) s)
   | OsClose i => if fd_get i s then (fd_set i false s, Done) else (s, Exc EOS)
   | OsFstat i => (s, if fd_get i s then Done else Exc EOS)
-  | LogDisable l => (set_logd l s, Done)
-  | LogCheck => (s, if 40 <=? logd s then Exc ERuntime else Done)
+  | LogDisable l => (set_cache None (set_logd l s), Done)
+  | LogCheck => let (s', b) := consult s in (s', if b then Done else Exc ERuntime)
+  | LogEmit => (fst (consult s), Done)
   | Seed x => (set_mod (x, O) s, Done)
   | SeedNone => (set_inst (cfg_seed e, O) s, Done)        (* R.seed(): _patch_random makes seed(None) use the configured seed *)
   | Draw => let (x, k) := mod_rng s in
@@ -188,7 +184,9 @@ Definition osc_restore (sv : saved) (s : proc) : proc :=
              (if sv_fd2 sv then true else fd2 s) s))).
 (* TestCaseExecutor.execute, calling thread, after the result / time-out handling: hand the previous
    logging.disable level back *)
-Definition restore_logging (sv : saved) (s : proc) : proc := set_logd (sv_logd sv) s.
+Definition restore_logging (sv : saved) (s : proc) : proc := set_cache None (set_logd (sv_logd sv) s).
+(* NOT the code's: assigning the attribute restores the number but leaves the loggers' caches stale *)
+Definition restore_logging_level_only (sv : saved) (s : proc) : proc := set_logd (sv_logd sv) s.
 Definition restore (sv : saved) (s : proc) : proc := restore_logging sv (osc_restore sv s).
 
 Definition exec_test (e : env) (t : list act) (s : proc) : proc * list outcome :=
@@ -250,7 +248,12 @@ Definition proc_eqb (a b : proc) : bool :=
   Bool.eqb (nullw_closed a) (nullw_closed b) && Bool.eqb (nullr_closed a) (nullr_closed b) &&
   Bool.eqb (fd0 a) (fd0 b) && Bool.eqb (fd1 a) (fd1 b) && Bool.eqb (fd2 a) (fd2 b) &&
   Z.eqb (logd a) (logd b) && rng_eqb (mod_rng a) (mod_rng b) && rng_eqb (inst_rng a) (inst_rng b) &&
-  rng_eqb (pyn_rng a) (pyn_rng b) && Z.eqb (counter a) (counter b).
+  rng_eqb (pyn_rng a) (pyn_rng b) && Z.eqb (counter a) (counter b) &&
+  match log_cache a, log_cache b with
+  | None, None => true
+  | Some x, Some y => Bool.eqb x y
+  | _, _ => false
+  end.
 
 Definition exn_eqb (a b : exn) : bool :=
   match a, b with EValue, EValue | EOS, EOS | ERuntime, ERuntime | EKey, EKey => true | _, _ => false end.
